@@ -1202,3 +1202,23 @@ Proof.
   pose proof Hpre as (_ & _ & Hp & Htg & _).
   split; [exact Hp|]. split; [exact Htg|]. now apply lookup_renamed.
 Qed.
+
+(* ================================================================ J. the run the model runner prints as S lines *)
+(* sftp_run_spec (accounted contents + predicted reads) agrees step by step with the model run:
+   same observer's view, and every prediction the spec makes is the result the call returned *)
+Definition pred_ok (p : option res) (r : res) : Prop := forall x, p = Some x -> x = r.
+
+Theorem spec_run_agrees : forall items st,
+  map fst (sftp_run_spec st (s_objs (st_srv st)) items) = map snd (sftp_run_obs st items) /\
+  Forall2 pred_ok (map snd (sftp_run_spec st (s_objs (st_srv st)) items)) (map fst (sftp_run_obs st items)).
+Proof.
+  induction items as [|it items IH]; intros st; [split; [reflexivity | constructor]|].
+  cbn [sftp_run_spec sftp_run_obs].
+  pose proof (step_acct st it) as Hs. pose proof (reads_exact st it) as Hr.
+  destruct (sftp_step st it) as [st1 x]. cbn [fst snd] in Hs, Hr.
+  rewrite <- Hs. destruct (IH st1) as [IH1 IH2].
+  assert (Hsrv : mkSrv (s_tree (st_srv st1)) (s_objs (st_srv st1)) = st_srv st1) by (destruct (st_srv st1); reflexivity).
+  cbn [map fst snd]. rewrite Hsrv. split.
+  - now rewrite IH1.
+  - constructor; [|exact IH2]. intros y Hy. symmetry. now apply Hr.
+Qed.
